@@ -2,6 +2,8 @@ import BqVerif.Proofs.Sched
 import BqVerif.Proofs.Mailbox
 import BqVerif.Proofs.Worker
 import BqVerif.Model.FineWake
+import BqVerif.Proofs.TokenNet
+import BqVerif.Model.RuntimeWitness
 /-!
 # C07 — every awaited runtime future resolves exactly once with its own result
 
@@ -98,6 +100,39 @@ example : takenOf [] [.dep 1 [7], .take, .dep 0 [5], .take] = [(1, [7]), (0, [5]
 theorem C07_L_mailbox_ids_fresh (tbl : Table) (w : Worker) (hf : Fresh w) :
     Fresh (w.step tbl).w ∧ ∀ m, Fresh (w.recv m) :=
   ⟨(step_mono tbl w).fresh hf, fun m => (recv_mono w m).fresh hf⟩
+
+/-- **Token uniqueness (G1, G6 of the keystone) — flat topology.**
+    A *token* of a task address `a` is the task itself inside a SUBMIT / SUBMIT_BATCH message in
+    any channel, in a worker's delayed list or task table, or its RESULT message in any channel.
+    In every state reachable from the initial state of a server managing `nw` workers directly
+    (`nc` clients, any program table) by any sequence of transitions - deliveries in any order,
+    worker loop iterations, client calls, *any* assignment and iteration order fed to the
+    relational steps, shutdown and error paths included - every address has **at most one
+    token** (a task is never duplicated: not by `schedule_tasks`, not by batching, not by
+    result forwarding), and token addresses are *fresh*: below the mailbox counter of the
+    worker (or of the server, for root tasks) that created them, so `submit`/`map` can never
+    re-issue an address in use.
+    (`_partial`: this is the safety half G1+G6 of `C07_G_token`; the existence half G2 - no
+    token is lost unless cancelled - and result integrity G3/G4 are validated by the harness
+    on every run but not yet proved; manager trees are not covered.) -/
+theorem C07_G_token_unique_partial (tbl : Table) (attached : Bool) (nw nc : Nat) (trs : List Tr)
+    (hwf : ∀ t ∈ trs, t.wf) :
+    let n := (Net.initFlat tbl attached nw nc).exec trs
+    (∀ a, Tok a n ≤ 1)
+    ∧ (∀ w ∈ n.workers, ∀ a, a.w = w.id → 0 < Tok a n → a.m < w.counter)
+    ∧ (∀ a, a.w = -1 → 0 < Tok a n → a.m < n.server.counter) := by
+  have h := (GInv.init tbl attached nw nc).exec trs hwf
+  exact ⟨h.uniq, h.freshW, h.freshS⟩
+
+/-- non-vacuity: a real run (the leak witness run of C12) satisfies the hypothesis and ends in
+    a state that does hold a token -/
+example : (∀ t ∈ leakRun, t.wf) ∧ Tok ⟨0, 0, 0⟩ ((Net.initFlat leakTable false 1 1).exec leakRun) = 1 := by
+  refine ⟨?_, by decide +kernel⟩
+  intro t ht
+  simp only [leakRun, List.mem_cons, List.mem_nil_iff, or_false] at ht
+  rcases ht with rfl | rfl | rfl | rfl | rfl | rfl | rfl | rfl | rfl | rfl | rfl | rfl | rfl | rfl <;>
+    first | trivial | (intro a; rfl)
+
 
 /-- **Line-level race (finding).** In the source-line model of `_process_await` ∥
     `_handle_result` the schedule in which the incoming thread handles the result of `f0`
